@@ -183,8 +183,33 @@ def ast_str(e):
 # ----------------------------------------------------------------- AST -> library objects
 
 
-def lib_of_ast(e, tags, val):
-    """tags: name -> ColumnTag; val(v) -> python/SymInt value for a literal (int or "$name")."""
+_SHARED = [None]  # while set: one library object per distinct sub-AST (callers keep and re-use sub-expressions)
+
+
+def lib_of_ast(e, tags, val, memo=None):
+    """tags: name -> ColumnTag; val(v) -> python/SymInt value for a literal (int or "$name").  With `memo` (a dict) every distinct
+    sub-expression AST is built once and the same library object is handed to every use of it."""
+    outer = memo is not None and _SHARED[0] is None
+    if outer:
+        _SHARED[0] = memo
+    try:
+        m = _SHARED[0]
+        if m is not None:
+            try:
+                if ("sub", e) in m:
+                    return m[("sub", e)]
+            except TypeError:
+                m = None
+        r = _lib_of_ast(e, tags, val)
+        if m is not None:
+            m[("sub", e)] = r
+        return r
+    finally:
+        if outer:
+            _SHARED[0] = None
+
+
+def _lib_of_ast(e, tags, val):
     from lsst.daf.relation import ColumnContainer, ColumnExpression, Predicate
 
     h = e[0]
